@@ -178,12 +178,14 @@ Variable lower : str -> str.
 Notation WF := (WF lower).
 Notation new_object := (new_object fmt lower).
 Notation ensure_child := (ensure_child fmt lower).
+Notation ensure_child_edge := (ensure_child_edge fmt lower).
 Notation connect := (connect fmt lower).
 Notation apply_op := (apply_op fmt lower).
 
 (* representation invariant of the model's heap: numbers from g_next on are unused *)
 Definition Rep (g : graph) : Prop :=
-  (forall k, g_next g <= k -> g_st g k = None) /\ (forall k, listed g k -> k < g_next g) /\ 0 < g_next g.
+  (forall k, g_next g <= k -> g_st g k = None) /\ (forall k, listed g k -> k < g_next g) /\ 0 < g_next g
+  /\ (forall k, In k (g_tabs g) -> k < g_next g).
 
 Lemma rep_init : Rep init.
 Proof.
@@ -191,6 +193,7 @@ Proof.
   - intros k H. destruct k; [lia|reflexivity].
   - intros k [].
   - lia.
+  - intros k [].
 Qed.
 
 Lemma wf_init : WF init.
@@ -202,6 +205,7 @@ Proof.
   - intros k [].
   - intros p po [E|[]] H. subst. simpl in H. inversion H; subst. simpl. split; [intros c []|intros key c []].
   - intros e [].
+  - intros k o [].
 Qed.
 
 Lemma node_st g p : WF g -> node g p -> exists po, g_st g p = Some po /\ o_graph po = 0.
@@ -212,7 +216,7 @@ Proof.
 Qed.
 
 Lemma node_lt g p : Rep g -> node g p -> p < g_next g.
-Proof. intros [_ [R2 R3]] [E|L]; [subst; exact R3|apply R2, L]. Qed.
+Proof. intros [_ [R2 [R3 _]]] [E|L]; [subst; exact R3|apply R2, L]. Qed.
 
 Lemma node_reach g p : WF g -> node g p -> reach g p.
 Proof. intros W [E|L]; [subst; exists 0; reflexivity|apply (wf_reach _ _ W), L]. Qed.
@@ -222,14 +226,14 @@ Proof. intros W [E|L]; [subst; exists 0; reflexivity|apply (wf_reach _ _ W), L].
 Lemma wf_relist g objs' es' :
   Permutation (g_objs g) objs' ->
   (forall e, In e es' -> listed g (e_src e) /\ listed g (e_dst e)) -> WF g ->
-  WF (mkGraph (g_st g) (g_next g) objs' es').
+  WF (mkGraph (g_st g) (g_next g) objs' es' (g_tabs g)).
 Proof.
   intros P Q W.
-  assert (L : forall k, listed (mkGraph (g_st g) (g_next g) objs' es') k <-> listed g k).
+  assert (L : forall k, listed (mkGraph (g_st g) (g_next g) objs' es' (g_tabs g)) k <-> listed g k).
   { intro k. unfold listed. simpl. split; apply Permutation_in; [apply Permutation_sym, P|exact P]. }
-  assert (N : forall k, node (mkGraph (g_st g) (g_next g) objs' es') k <-> node g k).
+  assert (N : forall k, node (mkGraph (g_st g) (g_next g) objs' es' (g_tabs g)) k <-> node g k).
   { intro k. unfold node. rewrite L. reflexivity. }
-  assert (Wk : forall n k, walk (mkGraph (g_st g) (g_next g) objs' es') n k = walk g n k).
+  assert (Wk : forall n k, walk (mkGraph (g_st g) (g_next g) objs' es' (g_tabs g)) n k = walk g n k).
   { induction n as [|n IH]; simpl; intro k; [reflexivity|].
     unfold parent at 1. simpl. fold (parent g k). destruct (parent g k); [apply IH|reflexivity]. }
   constructor; simpl.
@@ -241,33 +245,38 @@ Proof.
   - intros p po Np Hp. apply N in Np. destruct (wf_children _ _ W p po Np Hp) as [C1 C2]. split; [|exact C2].
     intros c Hc. destruct (C1 c Hc) as [A B]. split; [apply L; exact A|exact B].
   - intros e He. destruct (Q e He) as [A B]. split; apply L; assumption.
+  - apply (wf_tables _ _ W).
 Qed.
 
 Lemma wf_set_edges g es : WF g ->
   (forall e, In e es -> listed g (e_src e) /\ listed g (e_dst e)) ->
-  WF (mkGraph (g_st g) (g_next g) (g_objs g) es).
+  WF (mkGraph (g_st g) (g_next g) (g_objs g) es (g_tabs g)).
 Proof. intros W H. apply wf_relist; [apply Permutation_refl|exact H|exact W]. Qed.
 
 Lemma new_object_inv g p name :
   Rep g -> WF g -> node g p ->
   (forall po, g_st g p = Some po -> lookup (lower (fmt name)) (o_cmap po) = None) ->
+  ~ In p (g_tabs g) ->
   let g' := fst (new_object g p name) in
   let c := snd (new_object g p name) in
-  Rep g' /\ WF g' /\ listed g' c /\ (forall k, listed g k -> listed g' k) /\ g_edges g' = g_edges g.
+  Rep g' /\ WF g' /\ listed g' c /\ (forall k, listed g k -> listed g' k) /\ g_edges g' = g_edges g
+  /\ g_tabs g' = g_tabs g.
 Proof.
-  intros R W Np Hfree.
+  intros R W Np Hfree Ntab.
   destruct (node_st g p W Np) as [po [Hp Gp]].
   specialize (Hfree po Hp).
-  unfold new_object. rewrite Hp. cbn [fst snd].
+  unfold new_object. rewrite Hp.
+  destruct (memb p (g_tabs g)) eqn:Mt; [apply memb_in in Mt; contradiction|].
+  cbn [fst snd].
   set (c := g_next g).
   set (id := fmt name).
   set (child := mkObj id name (Some p) (o_graph po) [] []).
   set (po' := mkObj (o_id po) (o_name po) (o_parent po) (o_graph po) (o_carr po ++ [c])
                     (map_set (lower id) c (o_cmap po))).
   set (st' := upd (upd (g_st g) c child) p po').
-  set (g' := mkGraph st' (S c) (g_objs g ++ [c]) (g_edges g)).
+  set (g' := mkGraph st' (S c) (g_objs g ++ [c]) (g_edges g) (g_tabs g)).
   pose proof (node_lt g p R Np) as Lp. fold c in Lp.
-  destruct R as [R1 [R2 R3]].
+  destruct R as [R1 [R2 [R3 R4]]].
   assert (Stc : g_st g c = None) by (apply R1; unfold c; lia).
   (* the new heap *)
   assert (Sp : st' p = Some po') by (unfold st', upd; rewrite Nat.eqb_refl; reflexivity).
@@ -294,12 +303,13 @@ Proof.
     rewrite Par by assumption. rewrite P. apply IH, H. }
   assert (Cnotin : ~ In c (o_carr po)).
   { intro H. destruct (wf_children _ _ W p po Np Hp) as [C1 _]. destruct (C1 c H) as [L _]. apply Lold in L. congruence. }
-  split; [|split; [|split; [exact Lc|split; [exact Lmono|reflexivity]]]].
+  split; [|split; [|split; [exact Lc|split; [exact Lmono|split; reflexivity]]]].
   - (* Rep *)
-    repeat split; cbn [g_next g_st g'].
+    repeat split; cbn [g_next g_st g_tabs g'].
     + intros k H. rewrite So by lia. apply R1. unfold c in H. lia.
     + intros k H. apply Linv in H as [H|H]; [apply R2 in H; unfold c; lia|lia].
     + lia.
+    + intros k H. apply R4 in H. unfold c. lia.
   - constructor.
     + (* listed once *)
       cbn [g_objs g']. apply nodup_snoc; [apply (wf_once _ _ W)|]. intro H. apply Lold in H. congruence.
@@ -318,7 +328,7 @@ Proof.
       intros k H. apply Linv in H as [H|H].
       * destruct (wf_parent _ _ W k H) as [o [q [qo [H1 [H2 [H3 [H4 [H5 [H6 H7]]]]]]]]].
         pose proof (Lold k H) as Kc.
-        assert (Qc : q <> c) by (pose proof (node_lt g q (conj R1 (conj R2 R3)) H4); unfold c; lia).
+        assert (Qc : q <> c) by (pose proof (node_lt g q (conj R1 (conj R2 (conj R3 R4))) H4); unfold c; lia).
         (* the object itself: unchanged, or p with more children *)
         assert (Ek : exists o', st' k = Some o' /\ o_id o' = o_id o /\ o_graph o' = o_graph o /\ o_parent o' = o_parent o).
         { destruct (Nat.eq_dec k p) as [E|E].
@@ -359,100 +369,263 @@ Proof.
         intros x Hx. destruct (C1 x Hx) as [L P]. split; [apply Lmono, L|]. rewrite Par; [exact P|apply Lold, L].
     + (* connections *)
       intros e He. cbn [g_edges g'] in He. destruct (wf_edges _ _ W e He) as [H1 H2]. split; apply Lmono; assumption.
+    + (* tables *)
+      intros k o Hk Ho. cbn [g_tabs g'] in Hk. cbn [g_st g'] in Ho.
+      assert (k <> p) by (intro E; subst k; contradiction).
+      assert (k <> c) by (apply R4 in Hk; unfold c; lia).
+      rewrite So in Ho by assumption. apply (wf_tables _ _ W k o Hk Ho).
+Qed.
+
+(* on a class / sql_table object nothing happens *)
+Lemma new_object_table g p name : In p (g_tabs g) -> new_object g p name = (g, p).
+Proof.
+  intro H. unfold new_object. destruct (g_st g p); [|reflexivity].
+  apply memb_in in H. rewrite H. reflexivity.
 Qed.
 
 Lemma ensure_child_inv : forall path g p,
   Rep g -> WF g -> node g p ->
   let g' := fst (ensure_child g p path) in
   let r := snd (ensure_child g p path) in
-  Rep g' /\ WF g' /\ node g' r /\ (path <> [] -> listed g' r) /\
-  (forall k, listed g k -> listed g' k) /\ g_edges g' = g_edges g.
+  Rep g' /\ WF g' /\ node g' r /\ (path <> [] -> listed g' r \/ (r = p /\ In p (g_tabs g))) /\
+  (forall k, listed g k -> listed g' k) /\ g_edges g' = g_edges g /\ g_tabs g' = g_tabs g.
 Proof.
   induction path as [|n rest IH]; intros g p R W Np.
-  - simpl. split; [exact R|split; [exact W|split; [exact Np|split; [congruence|split; [auto|reflexivity]]]]].
+  - simpl. split; [exact R|split; [exact W|split; [exact Np|split; [congruence|split; [auto|split; reflexivity]]]]].
   - destruct (node_st g p W Np) as [po [Hp _]].
     cbn [ensure_child]. rewrite Hp.
     destruct (lookup (lower (fmt n)) (o_cmap po)) as [c|] eqn:Lk.
     + (* the child exists *)
       assert (Lc : listed g c).
       { apply lookup_in in Lk. destruct (wf_children _ _ W p po Np Hp) as [C1 C2]. apply C1. eapply C2, Lk. }
-      destruct (IH g c R W (or_intror Lc)) as [R' [W' [N' [L' [M' E']]]]].
+      destruct (IH g c R W (or_intror Lc)) as [R' [W' [N' [L' [M' [E' T']]]]]].
       cbn zeta in *.
-      split; [exact R'|split; [exact W'|split; [exact N'|split; [|split; [exact M'|exact E']]]]].
-      intros _. destruct rest as [|n2 rest2]; [simpl; exact Lc|apply L'; discriminate].
-    + pose proof (new_object_inv g p n R W Np) as NI.
-      assert (Hfree : forall po0, g_st g p = Some po0 -> lookup (lower (fmt n)) (o_cmap po0) = None).
-      { intros po0 H0. rewrite Hp in H0. inversion H0; subst. exact Lk. }
-      specialize (NI Hfree). cbn zeta in NI.
-      destruct (new_object g p n) as [g1 c] eqn:NO. cbn [fst snd] in NI.
-      destruct NI as [R1 [W1 [Lc [M1 E1]]]].
-      destruct (IH g1 c R1 W1 (or_intror Lc)) as [R' [W' [N' [L' [M' E']]]]].
-      cbn zeta in *.
-      split; [exact R'|split; [exact W'|split; [exact N'|split; [|split]]]].
-      * intros _. destruct rest as [|n2 rest2]; [simpl; exact Lc|apply L'; discriminate].
-      * intros k H. apply M', M1, H.
-      * rewrite E'. exact E1.
+      split; [exact R'|split; [exact W'|split; [exact N'|split; [|split; [exact M'|split; [exact E'|exact T']]]]]].
+      intros _. left. destruct rest as [|n2 rest2]; [simpl; exact Lc|].
+      destruct L' as [L'|[L' _]]; [discriminate|exact L'|]. rewrite L'. apply M', Lc.
+    + destruct (in_dec Nat.eq_dec p (g_tabs g)) as [Tp|Tp].
+      * (* a class / sql_table: newObject does nothing *)
+        rewrite (new_object_table g p n Tp).
+        destruct (IH g p R W Np) as [R' [W' [N' [L' [M' [E' T']]]]]].
+        cbn zeta in *.
+        split; [exact R'|split; [exact W'|split; [exact N'|split; [|split; [exact M'|split; [exact E'|exact T']]]]]].
+        intros _. destruct rest as [|n2 rest2]; [right; split; [reflexivity|exact Tp]|].
+        apply L'. discriminate.
+      * pose proof (new_object_inv g p n R W Np) as NI.
+        assert (Hfree : forall po0, g_st g p = Some po0 -> lookup (lower (fmt n)) (o_cmap po0) = None).
+        { intros po0 H0. rewrite Hp in H0. inversion H0; subst. exact Lk. }
+        specialize (NI Hfree Tp). cbn zeta in NI.
+        destruct (new_object g p n) as [g1 c] eqn:NO. cbn [fst snd] in NI.
+        destruct NI as [R1 [W1 [Lc [M1 [E1 T1]]]]].
+        destruct (IH g1 c R1 W1 (or_intror Lc)) as [R' [W' [N' [L' [M' [E' T']]]]]].
+        cbn zeta in *.
+        split; [exact R'|split; [exact W'|split; [exact N'|split; [|split; [|split]]]]].
+        -- intros _. left. destruct rest as [|n2 rest2]; [simpl; exact Lc|].
+           destruct L' as [L'|[L' _]]; [discriminate|exact L'|]. rewrite L'. apply M', Lc.
+        -- intros k H. apply M', M1, H.
+        -- rewrite E'. exact E1.
+        -- rewrite T'. exact T1.
 Qed.
 
 Lemma wf_new_object g p name :
   Rep g -> WF g -> node g p ->
   (forall po, g_st g p = Some po -> lookup (lower (fmt name)) (o_cmap po) = None) ->
   WF (fst (new_object g p name)).
-Proof. intros R W N H. apply (new_object_inv g p name R W N H). Qed.
+Proof.
+  intros R W N H. destruct (in_dec Nat.eq_dec p (g_tabs g)) as [T|T].
+  - rewrite (new_object_table g p name T). exact W.
+  - apply (new_object_inv g p name R W N H T).
+Qed.
 
 Lemma wf_ensure_child g p path :
   Rep g -> WF g -> node g p -> WF (fst (ensure_child g p path)).
 Proof. intros R W N. apply (ensure_child_inv path g p R W N). Qed.
 
-Lemma connect_inv g p src dst sa da :
-  Rep g -> WF g -> node g p -> src <> [] -> dst <> [] ->
-  Rep (connect g p src dst sa da) /\ WF (connect g p src dst sa da).
+(* end points of connections: resolved segment by segment, truncated at class / sql_table objects *)
+Lemma ensure_child_edge_inv : forall path g p,
+  Rep g -> WF g -> node g p ->
+  let g' := fst (ensure_child_edge g p path) in
+  let r := snd (ensure_child_edge g p path) in
+  Rep g' /\ WF g' /\ node g' r /\ (path <> [] -> listed g' r \/ (r = p /\ In p (g_tabs g))) /\
+  (forall k, listed g k -> listed g' k) /\ g_edges g' = g_edges g /\ g_tabs g' = g_tabs g.
 Proof.
-  intros R W Np Hs Hd. unfold connect.
-  pose proof (ensure_child_inv src g p R W Np) as I1. cbn zeta in I1.
-  destruct (ensure_child g p src) as [g1 s]. cbn [fst snd] in I1.
-  destruct I1 as [R1 [W1 [_ [L1 [M1 _]]]]].
+  induction path as [|n rest IH]; intros g p R W Np.
+  - simpl. split; [exact R|split; [exact W|split; [exact Np|split; [congruence|split; [auto|split; reflexivity]]]]].
+  - cbn [ensure_child_edge].
+    destruct (memb p (g_tabs g)) eqn:Mt.
+    + apply memb_in in Mt. cbn [fst snd].
+      split; [exact R|split; [exact W|split; [exact Np|split; [|split; [auto|split; reflexivity]]]]].
+      intros _. right. split; [reflexivity|exact Mt].
+    + assert (Tp : ~ In p (g_tabs g)) by (intro H; apply memb_in in H; congruence).
+      pose proof (ensure_child_inv [n] g p R W Np) as I1. cbn zeta in I1.
+      destruct (ensure_child g p [n]) as [g1 c]. cbn [fst snd] in I1.
+      destruct I1 as [R1 [W1 [N1 [L1 [M1 [E1 T1]]]]]].
+      assert (Lc : listed g1 c).
+      { destruct L1 as [L1|[_ L1]]; [discriminate|exact L1|contradiction]. }
+      destruct (IH g1 c R1 W1 N1) as [R' [W' [N' [L' [M' [E' T']]]]]].
+      cbn zeta in *.
+      split; [exact R'|split; [exact W'|split; [exact N'|split; [|split; [|split]]]]].
+      * intros _. left. destruct rest as [|n2 rest2]; [simpl; exact Lc|].
+        destruct L' as [L'|[L' _]]; [discriminate|exact L'|]. rewrite L'. apply M', Lc.
+      * intros k H. apply M', M1, H.
+      * rewrite E'. exact E1.
+      * rewrite T'. exact T1.
+Qed.
+
+(* Connect from a scope that is an object of the board, or the root unless the root is a class / sql_table *)
+Lemma connect_inv g p src dst sa da :
+  Rep g -> WF g -> node g p -> (listed g p \/ ~ In p (g_tabs g)) -> src <> [] -> dst <> [] ->
+  Rep (connect g p src dst sa da) /\ WF (connect g p src dst sa da)
+  /\ g_tabs (connect g p src dst sa da) = g_tabs g.
+Proof.
+  intros R W Np Hp Hs Hd. unfold connect.
+  pose proof (ensure_child_edge_inv src g p R W Np) as I1. cbn zeta in I1.
+  destruct (ensure_child_edge g p src) as [g1 s]. cbn [fst snd] in I1.
+  destruct I1 as [R1 [W1 [_ [L1 [M1 [_ T1]]]]]].
   assert (Np1 : node g1 p) by (destruct Np as [E|L]; [left; exact E|right; apply M1, L]).
-  pose proof (ensure_child_inv dst g1 p R1 W1 Np1) as I2. cbn zeta in I2.
-  destruct (ensure_child g1 p dst) as [g2 d]. cbn [fst snd] in I2.
-  destruct I2 as [R2 [W2 [_ [L2 [M2 _]]]]].
-  split.
-  - destruct R2 as [A [B C]]. repeat split; assumption.
+  pose proof (ensure_child_edge_inv dst g1 p R1 W1 Np1) as I2. cbn zeta in I2.
+  destruct (ensure_child_edge g1 p dst) as [g2 d]. cbn [fst snd] in I2.
+  destruct I2 as [R2 [W2 [_ [L2 [M2 [_ T2]]]]]].
+  assert (Ls : listed g1 s).
+  { destruct (L1 Hs) as [L|[E T]]; [exact L|]. subst s. destruct Hp as [L|N]; [apply M1, L|contradiction]. }
+  assert (Ld : listed g2 d).
+  { destruct (L2 Hd) as [L|[E T]]; [exact L|]. subst d. rewrite T1 in T.
+    destruct Hp as [L|N]; [apply M2, M1, L|contradiction]. }
+  split; [|split].
+  - destruct R2 as [A [B [C D]]]. repeat split; assumption.
   - apply wf_set_edges; [exact W2|].
     intros e He. apply in_app_or in He as [He|[He|[]]].
     + apply (wf_edges _ _ W2), He.
-    + subst e. simpl. split; [apply M2, L1, Hs|apply L2, Hd].
+    + subst e. simpl. split; [apply M2, Ls|exact Ld].
+  - simpl. rewrite T2. exact T1.
 Qed.
 
 Lemma wf_connect g p src dst sa da :
-  Rep g -> WF g -> node g p -> src <> [] -> dst <> [] -> WF (connect g p src dst sa da).
+  Rep g -> WF g -> node g p -> (listed g p \/ ~ In p (g_tabs g)) -> src <> [] -> dst <> [] ->
+  WF (connect g p src dst sa da).
 Proof. intros. apply connect_inv; assumption. Qed.
 
-Lemma apply_op_inv g o : Rep g -> WF g -> Rep (apply_op g o) /\ WF (apply_op g o).
+(* compileClass / compileSQLTable *)
+Lemma make_table_inv g k : Rep g -> WF g -> node g k ->
+  Rep (make_table g k) /\ WF (make_table g k) /\
+  (forall x, In x (g_tabs (make_table g k)) -> x = k \/ In x (g_tabs g)) /\
+  g_edges (make_table g k) = g_edges g.
 Proof.
-  intros R W. destruct o as [scope path|scope src dst sa da]; cbn [apply_op].
-  - pose proof (ensure_child_inv scope g 0 R W (or_introl eq_refl)) as I1. cbn zeta in I1.
-    destruct (ensure_child g 0 scope) as [g1 s]. cbn [fst snd] in I1.
-    destruct I1 as [R1 [W1 [N1 _]]].
-    pose proof (ensure_child_inv path g1 s R1 W1 N1) as I2. cbn zeta in I2.
-    destruct I2 as [R2 [W2 _]]. split; assumption.
-  - destruct src as [|s0 src]; [split; assumption|].
-    destruct dst as [|d0 dst]; [split; assumption|].
-    pose proof (ensure_child_inv scope g 0 R W (or_introl eq_refl)) as I1. cbn zeta in I1.
-    destruct (ensure_child g 0 scope) as [g1 s]. cbn [fst snd] in I1.
-    destruct I1 as [R1 [W1 [N1 _]]].
-    apply connect_inv; try assumption; discriminate.
+  intros R W Nk. unfold make_table.
+  destruct (node_st g k W Nk) as [o [Ho Go]]. rewrite Ho.
+  destruct (forallb (is_leaf g) (o_carr o) &&
+            forallb (fun e => negb (memb (e_src e) (o_carr o)) && negb (memb (e_dst e) (o_carr o))) (g_edges g)) eqn:C;
+    [|split; [exact R|split; [exact W|split; [auto|reflexivity]]]].
+  apply andb_prop in C as [Cl Ce].
+  set (o' := mkObj (o_id o) (o_name o) (o_parent o) (o_graph o) [] []).
+  set (objs' := filter (fun x => negb (memb x (o_carr o))) (g_objs g)).
+  set (g' := mkGraph (upd (g_st g) k o') (g_next g) objs' (g_edges g) (k :: g_tabs g)).
+  destruct R as [R1 [R2 [R3 R4]]].
+  pose proof (node_lt g k (conj R1 (conj R2 (conj R3 R4))) Nk) as Lk.
+  assert (Sk : g_st g' k = Some o') by (cbn; unfold upd; rewrite Nat.eqb_refl; reflexivity).
+  assert (So : forall x, x <> k -> g_st g' x = g_st g x).
+  { intros x H. cbn. unfold upd. apply Nat.eqb_neq in H. rewrite H. reflexivity. }
+  assert (Par : forall x, parent g' x = parent g x).
+  { intro x. unfold parent. destruct (Nat.eq_dec x k) as [E|E]; [subst x; rewrite Sk, Ho; reflexivity|rewrite So by exact E; reflexivity]. }
+  assert (Wk : forall n x, walk g' n x = walk g n x).
+  { induction n as [|n IH]; simpl; intro x; [reflexivity|]. rewrite Par. destruct (parent g x); [apply IH|reflexivity]. }
+  assert (Lin : forall x, listed g' x <-> listed g x /\ ~ In x (o_carr o)).
+  { intro x. unfold listed. cbn [g_objs g']. unfold objs'. rewrite filter_In, negb_true_iff, memb_not_in. reflexivity. }
+  destruct (wf_children _ _ W k o Nk Ho) as [Ck1 Ck2].
+  (* k itself is not one of its children, and the parent of a remaining object remains *)
+  assert (Knot : ~ In k (o_carr o)).
+  { intro H. pose proof (proj1 (forallb_forall _ _) Cl k H) as Lf. unfold is_leaf in Lf. rewrite Ho in Lf.
+    destruct (o_carr o); [destruct H|discriminate]. }
+  assert (Pkeep : forall x, listed g x -> ~ In x (o_carr o) -> forall q, parent g x = Some q -> node g' q).
+  { intros x Lx Nx q Pq. destruct (wf_parent _ _ W x Lx) as [ox [q' [qo [H1 [_ [H3 [H4 [H5 [H6 _]]]]]]]]].
+    unfold parent in Pq. rewrite H1, H3 in Pq. inversion Pq; subst q'.
+    destruct H4 as [E|Lq]; [left; exact E|right]. apply Lin. split; [exact Lq|].
+    intro Hq. pose proof (proj1 (forallb_forall _ _) Cl q Hq) as Lf. unfold is_leaf in Lf. rewrite H5 in Lf.
+    destruct (o_carr qo) eqn:Eq; [|discriminate]. simpl in H6. discriminate. }
+  split; [|split; [|split; [|reflexivity]]].
+  - split; [|split; [|split]].
+    + intros x H. cbn [g_next g'] in H. rewrite So by lia. apply R1, H.
+    + intros x H. apply Lin in H as [H _]. cbn [g_next g']. apply R2, H.
+    + exact R3.
+    + intros x H. cbn [g_tabs g'] in H. cbn [g_next g']. destruct H as [E|H]; [subst x; exact Lk|apply R4, H].
+  - constructor.
+    + cbn [g_objs g']. apply NoDup_filter, (wf_once _ _ W).
+    + destruct (wf_rootobj _ _ W) as [N0 [r [H1 [H2 H3]]]]. split.
+      * intro H. apply Lin in H as [H _]. contradiction.
+      * destruct (Nat.eq_dec 0 k) as [E|E].
+        -- subst k. rewrite Ho in H1. inversion H1; subst r. exists o'. rewrite Sk. repeat split; assumption.
+        -- exists r. rewrite So by exact E. repeat split; assumption.
+    + intros x H. apply Lin in H as [H _]. destruct (wf_reach _ _ W x H) as [n Hn]. exists n. rewrite Wk. exact Hn.
+    + intros x H. apply Lin in H as [Lx Nx].
+      destruct (wf_parent _ _ W x Lx) as [ox [q [qo [H1 [H2 [H3 [H4 [H5 [H6 H7]]]]]]]]].
+      assert (Nq : node g' q). { apply (Pkeep x Lx Nx). unfold parent. rewrite H1. exact H3. }
+      assert (Qk : q <> k).
+      { intro E. subst q. rewrite Ho in H5. inversion H5; subst qo. apply Nx.
+        apply (count_occ_In Nat.eq_dec). lia. }
+      destruct (Nat.eq_dec x k) as [E|E].
+      * subst x. rewrite Ho in H1. inversion H1; subst ox.
+        exists o', q, qo. rewrite Sk, So by exact Qk. repeat split; assumption.
+      * exists ox, q, qo. rewrite !So by assumption. repeat split; assumption.
+    + intros q qo Nq Hq.
+      destruct (Nat.eq_dec q k) as [E|E].
+      * subst q. rewrite Sk in Hq. inversion Hq; subst qo. split; [intros c []|intros key c []].
+      * rewrite So in Hq by exact E.
+        assert (Nq0 : node g q) by (destruct Nq as [E0|L]; [left; exact E0|right; apply Lin in L; apply L]).
+        destruct (wf_children _ _ W q qo Nq0 Hq) as [C1 C2]. split; [|exact C2].
+        intros c Hc. destruct (C1 c Hc) as [Lc Pc]. rewrite Par. split; [|exact Pc].
+        apply Lin. split; [exact Lc|]. intro Hck. destruct (Ck1 c Hck) as [_ Pk]. congruence.
+    + intros e He. cbn [g_edges g'] in He. destruct (wf_edges _ _ W e He) as [A B].
+      pose proof (proj1 (forallb_forall _ _) Ce e He) as X. apply andb_prop in X as [Xa Xb].
+      apply negb_true_iff, memb_not_in in Xa, Xb. split; apply Lin; split; assumption.
+    + intros x ox Hx Hox. cbn [g_tabs g'] in Hx.
+      destruct (Nat.eq_dec x k) as [E|E].
+      * subst x. rewrite Sk in Hox. inversion Hox; subst ox. split; reflexivity.
+      * rewrite So in Hox by exact E. destruct Hx as [Hx|Hx]; [congruence|]. apply (wf_tables _ _ W x ox Hx Hox).
+  - intros x [E|H]; [left; symmetry; exact E|right; exact H].
 Qed.
 
-Lemma ops_inv ops : forall g, Rep g -> WF g -> Rep (fold_left apply_op ops g) /\ WF (fold_left apply_op ops g).
+(* one operation; the root must not have been made a class / sql_table (see wf_ops_refuted) *)
+Lemma apply_op_inv g o : Rep g -> WF g -> ~ In 0 (g_tabs g) -> o <> OpTable [] ->
+  Rep (apply_op g o) /\ WF (apply_op g o) /\ ~ In 0 (g_tabs (apply_op g o)).
 Proof.
-  induction ops as [|o ops IH]; intros g R W; simpl; [split; assumption|].
-  destruct (apply_op_inv g o R W) as [R1 W1]. apply IH; assumption.
+  intros R W T0 Ho. destruct o as [scope path|scope src dst sa da|scope]; cbn [apply_op].
+  - pose proof (ensure_child_inv scope g 0 R W (or_introl eq_refl)) as I1. cbn zeta in I1.
+    destruct (ensure_child g 0 scope) as [g1 s]. cbn [fst snd] in I1.
+    destruct I1 as [R1 [W1 [N1 [_ [_ [_ T1]]]]]].
+    pose proof (ensure_child_inv path g1 s R1 W1 N1) as I2. cbn zeta in I2.
+    destruct I2 as [R2 [W2 [_ [_ [_ [_ T2]]]]]]. split; [exact R2|split; [exact W2|]]. rewrite T2, T1. exact T0.
+  - destruct src as [|s0 src]; [split; [exact R|split; [exact W|exact T0]]|].
+    destruct dst as [|d0 dst]; [split; [exact R|split; [exact W|exact T0]]|].
+    pose proof (ensure_child_inv scope g 0 R W (or_introl eq_refl)) as I1. cbn zeta in I1.
+    destruct (ensure_child g 0 scope) as [g1 s]. cbn [fst snd] in I1.
+    destruct I1 as [R1 [W1 [N1 [L1 [_ [_ T1]]]]]].
+    assert (Hs : listed g1 s \/ ~ In s (g_tabs g1)).
+    { destruct N1 as [E|L]; [right; subst s; rewrite T1; exact T0|left; exact L]. }
+    destruct (connect_inv g1 s (s0 :: src) (d0 :: dst) sa da R1 W1 N1 Hs) as [R2 [W2 T2]]; try discriminate.
+    split; [exact R2|split; [exact W2|]]. rewrite T2, T1. exact T0.
+  - pose proof (ensure_child_inv scope g 0 R W (or_introl eq_refl)) as I1. cbn zeta in I1.
+    destruct (ensure_child g 0 scope) as [g1 s]. cbn [fst snd] in I1.
+    destruct I1 as [R1 [W1 [N1 [L1 [_ [_ T1]]]]]].
+    destruct (make_table_inv g1 s R1 W1 N1) as [R2 [W2 [T2 _]]].
+    split; [exact R2|split; [exact W2|]].
+    intro H. destruct (T2 0 H) as [E|H0]; [|rewrite T1 in H0; contradiction].
+    (* s = 0: the scope path was empty *)
+    destruct scope as [|n rest]; [congruence|].
+    destruct L1 as [L|[_ T]]; [discriminate| |contradiction].
+    subst s. destruct (wf_rootobj _ _ W1) as [N0 _]. contradiction.
+Qed.
+
+Lemma ops_inv ops : forall g, Rep g -> WF g -> ~ In 0 (g_tabs g) -> Forall (fun o => o <> OpTable []) ops ->
+  Rep (fold_left apply_op ops g) /\ WF (fold_left apply_op ops g).
+Proof.
+  induction ops as [|o ops IH]; intros g R W T0 F; simpl; [split; assumption|].
+  inversion F; subst.
+  destruct (apply_op_inv g o R W T0) as [R1 [W1 T1]]; [assumption|]. apply IH; assumption.
 Qed.
 
 (* every graph reachable by any number of operations is well formed *)
-Lemma wf_ops ops : WF (run_ops fmt lower ops).
-Proof. apply ops_inv; [apply rep_init|apply wf_init]. Qed.
+Lemma wf_ops ops : Forall (fun o => o <> OpTable []) ops -> WF (run_ops fmt lower ops).
+Proof. intro F. apply ops_inv; [apply rep_init|apply wf_init|intros []|exact F]. Qed.
 
 (* ------------------------------------------------------------------ wf_check reflects WF *)
 
@@ -471,8 +644,9 @@ Qed.
 Lemma wf_check_sound g : wf_check lower g = true -> WF g.
 Proof.
   unfold wf_check. intro H.
-  repeat (apply andb_prop in H as [H ?]).
-  rename H into C1, H6 into C2, H5 into C3, H4 into C4, H3 into C5, H2 into C6, H1 into C7, H0 into C8.
+  apply andb_prop in H as [H C9]. apply andb_prop in H as [H C8]. apply andb_prop in H as [H C7].
+  apply andb_prop in H as [H C6]. apply andb_prop in H as [H C5]. apply andb_prop in H as [H C4].
+  apply andb_prop in H as [H C3]. apply andb_prop in H as [C1 C2].
   assert (P : forall k, listed g k ->
       exists o p po, g_st g k = Some o /\ o_graph o = 0 /\ o_parent o = Some p /\ node g p /\
                      g_st g p = Some po /\ count_occ Nat.eq_dec (o_carr po) k = 1 /\
@@ -503,6 +677,8 @@ Proof.
     + intros key c Hc. pose proof (proj1 (forallb_forall _ _) B2 (key, c) Hc) as B. apply memb_in in B. exact B.
   - intros e He. pose proof (proj1 (forallb_forall _ _) C8 e He) as B.
     apply andb_prop in B as [Ba Bb]. apply memb_in in Ba, Bb. split; assumption.
+  - intros k o Hk Ho. pose proof (proj1 (forallb_forall _ _) C9 k Hk) as B. cbn beta in B. rewrite Ho in B.
+    destruct (o_carr o); [|discriminate]. destruct (o_cmap o); [|discriminate]. split; reflexivity.
 Qed.
 
 (* depth bound: a parent chain that reaches the root visits distinct nodes *)
@@ -566,6 +742,8 @@ Proof.
     + intros [key c] Hc. apply memb_in. eapply C2, Hc.
   - apply forallb_forall. intros e He. destruct (wf_edges _ _ W e He) as [A B].
     apply andb_true_intro. split; apply memb_in; assumption.
+  - apply forallb_forall. intros k Hk. destruct (g_st g k) as [o|] eqn:Ho; [|reflexivity].
+    destruct (wf_tables _ _ W k o Hk Ho) as [A B]. rewrite A, B. reflexivity.
 Qed.
 
 Lemma wf_check_iff g : wf_check lower g = true <-> WF g.
@@ -576,7 +754,7 @@ Proof. split; [apply wf_check_sound|apply wf_check_complete]. Qed.
 (* WF does not depend on the order in which objects and connections are listed *)
 Lemma wf_perm g objs' es' :
   Permutation (g_objs g) objs' -> Permutation (g_edges g) es' -> WF g ->
-  WF (mkGraph (g_st g) (g_next g) objs' es').
+  WF (mkGraph (g_st g) (g_next g) objs' es' (g_tabs g)).
 Proof.
   intros P Q W. apply wf_relist; [exact P| |exact W].
   intros e He. apply (wf_edges _ _ W). eapply Permutation_in; [apply Permutation_sym, Q|exact He].
@@ -612,16 +790,27 @@ Hypothesis H_sort_edges_perm : forall l, Permutation l (sort_edges l).
 Hypothesis H_sort_edges_ordered : forall l, ordered (map epos (sort_edges l)).
 
 Definition sort_graph (g : graph) : graph :=
-  mkGraph (g_st g) (g_next g) (sort_objs (g_objs g)) (sort_edges (g_edges g)).
+  mkGraph (g_st g) (g_next g) (sort_objs (g_objs g)) (sort_edges (g_edges g)) (g_tabs g).
 
-Lemma compiled_sorted_wf ops :
+Lemma compiled_sorted_wf ops : Forall (fun o => o <> OpTable []) ops ->
   let g := sort_graph (run_ops fmt lower ops) in
   WF lower g /\ ordered (map opos (g_objs g)) /\ ordered (map epos (g_edges g)).
 Proof.
-  cbn zeta. split; [|split].
-  - apply wf_perm; [apply H_sort_objs_perm|apply H_sort_edges_perm|apply wf_ops].
+  intro F. cbn zeta. split; [|split].
+  - apply wf_perm; [apply H_sort_objs_perm|apply H_sort_edges_perm|apply wf_ops, F].
   - apply H_sort_objs_ordered.
   - apply H_sort_edges_ordered.
 Qed.
 
 End SortOracle.
+
+(* The guard of wf_ops is necessary: once the root of a board is a class / sql_table, a connection declared
+   at the root scope is truncated to the root itself, which is not an object of the board.  (d2 does this:
+   `shape: class` followed by `x -> y` at the top of a board compiles to a board with no objects and one
+   connection from the root to the root; recorded finding C09-root-table-edge.) *)
+Lemma wf_ops_refuted_root_table :
+  exists ops, ~ WF (fun s => s) (run_ops (fun s => s) (fun s => s) ops).
+Proof.
+  exists [OpTable []; OpConnect [] [[97%N]] [[98%N]] false true].
+  intro W. apply wf_check_iff in W. vm_compute in W. discriminate.
+Qed.
